@@ -10,13 +10,22 @@ Trees == {Leaves[i] : i \in LeafIdx}
          \cup {Or3(Leaves[i], And3(Leaves[j], Leaves[k])) : i \in {6, 14, 36}, j \in {1, 13, 37}, k \in {6, 14, 18}}
          \cup {And3(Par(Or3(Leaves[i], Leaves[j])), Leaves[k]) : i \in {6, 14, 36}, j \in {1, 13, 37}, k \in {6, 14, 18}}
 WsChoices == IF AllWs THEN [1..7 -> BOOLEAN] ELSE {[i \in 1..7 |-> FALSE], [i \in 1..7 |-> TRUE]} \cup {[i \in 1..7 |-> i = k] : k \in 1..7}
+\* names: every sequence of one to three words over the character classes lower / UPPER / digit joined by separator runs
+\* (PEP 503: a run of - _ . becomes one '-', letters are lowered; an upper-case letter or a digit ends a run like any other)
+NameWords == {W("a", "a"), W("B", "b"), W("1", "1"), W("aB", "ab"), W("Ba", "ba"), W("B1", "b1")}
+             \cup (IF AllWs THEN {W("AB", "ab"), W("1B", "1b"), W("a1", "a1"), W("b", "b"), W("A", "a"), W("11", "11")} ELSE {})
+NameSeps == {"-", "_", ".", "_.", "-_-"}
 VARIABLES kind, item
 Init == kind = "start" /\ item = <<>>
 Next == kind = "start" /\ \/ (kind' = "req" /\ \E n \in 1..Len(Names), ex \in 1..Len(ExtrasChoices), sp \in 1..Len(SpecChoices), m \in 1..Len(MarkerChoices), ws \in WsChoices :
                                   \E parens \in (IF SpecChoices[sp] = <<>> THEN {FALSE} ELSE BOOLEAN) : item' = <<n, ex, sp, parens, m, ws>>)
+                           \/ (kind' = "name" /\ \E n3 \in 1..3, x1 \in NameWords, x2 \in NameWords, x3 \in NameWords, y1 \in NameSeps, y2 \in NameSeps :
+                                  item' = [words |-> SubSeq(<<x1, x2, x3>>, 1, n3), seps |-> SubSeq(<<y1, y2>>, 1, n3 - 1)])
                            \/ (kind' = "marker" /\ \E t \in Trees : \E ex \in {{}, {"test"}, {"dev"}} : item' = <<t, ex>>)
 Emit == /\ (kind = "req" => CSVWrite("%1$s", <<ToJson([kind |-> "req", text |-> ReqText(item[1], item[2], item[3], item[4], item[5], item[6]),
                                                      expect |-> ReqExpect(item[1], item[2], item[3], item[5])])>>, OutFile))
+        /\ (kind = "name" => CSVWrite("%1$s", <<ToJson([kind |-> "req", text |-> NameText(item),
+                                                      expect |-> [name |-> NameNorm(item), extras |-> <<>>, spec |-> <<>>, marker |-> ""]])>>, OutFile))
         /\ (kind = "marker" => CSVWrite("%1$s", <<ToJson([kind |-> "marker", text |-> MkText(item[1]), extras |-> SetToSeq(item[2]),
                                                         expect |-> MkEval(item[1], item[2]), ast |-> item[1]])>>, OutFile))
 =============================================================================
